@@ -380,6 +380,68 @@ theorem degree_spec {a : Dict Rat} (ha : Canon a) :
   · intro h
     exact ⟨(natDegree_toPoly ha h).symm, (leadingCoeff_toPoly ha h).symm, getLc_ne_zero ha h⟩
 
+/-! ring laws at object level for `URatPoly` (specifications + `canon_ext`) -/
+
+theorem add_comm_obj {a b : Dict Rat} (ha : Canon a) (hb : Canon b) : addU a b = addU b a := by
+  obtain ⟨c1, p1, _⟩ := add_spec ha hb
+  obtain ⟨c2, p2, _⟩ := add_spec hb ha
+  exact canon_ext c1 c2 (by rw [p1, p2, add_comm])
+
+theorem add_assoc_obj {a b c : Dict Rat} (ha : Canon a) (hb : Canon b) (hc : Canon c) :
+    addU (addU a b) c = addU a (addU b c) := by
+  obtain ⟨c1, p1, _⟩ := add_spec ha hb
+  obtain ⟨c2, p2, _⟩ := add_spec hb hc
+  obtain ⟨c3, p3, _⟩ := add_spec c1 hc
+  obtain ⟨c4, p4, _⟩ := add_spec ha c2
+  exact canon_ext c3 c4 (by rw [p3, p4, p1, p2, add_assoc])
+
+theorem sub_add_cancel_obj {a b : Dict Rat} (ha : Canon a) (hb : Canon b) : addU (subU a b) b = a := by
+  obtain ⟨c1, p1, _⟩ := sub_spec ha hb
+  obtain ⟨c2, p2, _⟩ := add_spec c1 hb
+  exact canon_ext c2 ha (by rw [p2, p1, sub_add_cancel])
+
+theorem neg_neg_obj {a : Dict Rat} (ha : Canon a) : negU (negU a) = a := by
+  obtain ⟨c1, p1, _⟩ := neg_spec ha
+  obtain ⟨c2, p2, _⟩ := neg_spec c1
+  exact canon_ext c2 ha (by rw [p2, p1, neg_neg])
+
+theorem mul_comm_obj {a b : Dict Rat} (ha : Canon a) (hb : Canon b) :
+    ∃ r, mulU a b = .ok r ∧ mulU b a = .ok r := by
+  obtain ⟨r, h1, c1, p1, _⟩ := mul_spec ha hb
+  obtain ⟨s, h2, c2, p2, _⟩ := mul_spec hb ha
+  exact ⟨r, h1, by rw [h2, canon_ext c2 c1 (by rw [p1, p2, mul_comm])]⟩
+
+theorem mul_add_obj {a b c : Dict Rat} (ha : Canon a) (hb : Canon b) (hc : Canon c) :
+    ∃ ab ac r, mulU a b = .ok ab ∧ mulU a c = .ok ac ∧ mulU a (addU b c) = .ok r ∧ addU ab ac = r := by
+  obtain ⟨cbc, pbc, _⟩ := add_spec hb hc
+  obtain ⟨ab, h1, c1, p1, _⟩ := mul_spec ha hb
+  obtain ⟨ac, h2, c2, p2, _⟩ := mul_spec ha hc
+  obtain ⟨r, h3, c3, p3, _⟩ := mul_spec ha cbc
+  obtain ⟨c4, p4, _⟩ := add_spec c1 c2
+  exact ⟨ab, ac, r, h1, h2, h3, canon_ext c4 c3 (by rw [p4, p3, p1, p2, pbc, mul_add])⟩
+
+/-- `pow` unfolds as repeated `mul`: `a^(p+1)` is the same object as `a^p * a` -/
+theorem pow_succ_obj {a : Dict Rat} (ha : Canon a) (p : Nat) :
+    ∃ ap r, powU a p = .ok ap ∧ powU a (p + 1) = .ok r ∧ mulU ap a = .ok r := by
+  obtain ⟨ap, h1, c1, p1, _⟩ := pow_spec ha p
+  obtain ⟨r, h2, c2, p2, _⟩ := pow_spec ha (p + 1)
+  obtain ⟨s, h3, c3, p3, _⟩ := mul_spec c1 ha
+  exact ⟨ap, r, h1, h2, by rw [h3, canon_ext c3 c2 (by rw [p3, p2, p1, pow_succ])]⟩
+
+/-- exact division undoes multiplication: `divides(a, a*b)` answers yes with quotient `b` (for `a ≠ 0`) -/
+theorem divides_mul_obj {a b : Dict Rat} (ha : Canon a) (hb : Canon b) (hae : a ≠ []) :
+    ∃ r, mulU a b = .ok r ∧ dividesU a r = .ok (some b) := by
+  obtain ⟨r, h1, c1, p1, _⟩ := mul_spec ha hb
+  refine ⟨r, h1, ?_⟩
+  rcases divides_spec ha c1 hae with ⟨q, hq, cq, pq⟩ | ⟨_, hnd⟩
+  · rw [hq]; congr 2
+    have ha0 : toPoly a ≠ 0 := by
+      intro h0
+      exact hae (canon_ext ha (by constructor <;> simp [Sorted, NoZero]) (by simpa using h0))
+    have : toPoly a * toPoly q = toPoly a * toPoly b := by rw [← pq, p1]
+    exact canon_ext cq hb (mul_left_cancel₀ ha0 this)
+  · exact absurd ⟨toPoly b, p1⟩ hnd
+
 end URat
 
 /-! ## UExprPoly with integer coefficients -/
